@@ -10,6 +10,10 @@ P2  structural complements that hold for strings of any length: (a) the scanner 
 P3  text round trip (bounded): for every ranking with ties over <= 3 elements (ints; strings free of delimiters), in
     brace and bracket notation, with surrounding whitespace and with a name prefix, parsing the rendering gives an
     equal ranking.
+P5  no hang through regular expressions: every pattern handed to `re` by the modules of the parsing / reading code is
+    constant-folded and analysed statically (engines/redos.py): no loop of its automaton is exponentially ambiguous
+    (two ways to read the same string around the same state = exponential backtracking on texts that fail late).
+    Today's tree uses no regular expression; the analysis is exercised on built-in examples on every run.
 P4  file round trip (bounded, fake file system): Dataset.write then Dataset.from_file gives an equal dataset; and the
     reader's line filter accepts every line the writer can emit.
 """
@@ -88,6 +92,83 @@ def all_strings(maxlen: int, alphabet: str = ALPHABET):
             yield "".join(t)
 
 
+def _regex_patterns(proj: Project, modnames):
+    """(module, call node, pattern text, flags) for every call of the `re` module in the given modules; patterns are
+    folded from constants, module-level names, concatenations and implicit joins. A pattern that cannot be folded is an
+    ANALYSIS-ERROR (the rule must see every expression)."""
+    import re as _re
+    out = []
+    for mn in modnames:
+        try:
+            mod = proj.module(mn)
+        except Exception:
+            continue
+        consts: Dict[str, ast.AST] = {}
+        for st in mod.tree.body:
+            if isinstance(st, ast.Assign) and len(st.targets) == 1 and isinstance(st.targets[0], ast.Name):
+                consts[st.targets[0].id] = st.value
+            elif isinstance(st, ast.AnnAssign) and isinstance(st.target, ast.Name) and st.value is not None:
+                consts[st.target.id] = st.value
+        re_names, fn_names = set(), {}
+        for st in ast.walk(mod.tree):
+            if isinstance(st, ast.Import):
+                for al in st.names:
+                    if al.name == "re":
+                        re_names.add(al.asname or "re")
+            elif isinstance(st, ast.ImportFrom) and st.module == "re":
+                for al in st.names:
+                    fn_names[al.asname or al.name] = al.name
+
+        def fold(n, depth=0):
+            if depth > 20:
+                raise AnalysisError("regex pattern folding too deep")
+            if isinstance(n, ast.Constant) and isinstance(n.value, str):
+                return n.value
+            if isinstance(n, ast.Name) and n.id in consts:
+                return fold(consts[n.id], depth + 1)
+            if isinstance(n, ast.BinOp) and isinstance(n.op, ast.Add):
+                return fold(n.left, depth + 1) + fold(n.right, depth + 1)
+            if isinstance(n, ast.JoinedStr):
+                parts = []
+                for v in n.values:
+                    if isinstance(v, ast.Constant):
+                        parts.append(v.value)
+                    elif isinstance(v, ast.FormattedValue) and v.format_spec is None and v.conversion == -1:
+                        parts.append(fold(v.value, depth + 1))
+                    else:
+                        raise AnalysisError(f"{mod.relpath}:{n.lineno}: regex pattern built with a format specification")
+                return "".join(parts)
+            if isinstance(n, ast.Call) and isinstance(n.func, ast.Attribute) and n.func.attr == "escape" and n.args:
+                return _re.escape(fold(n.args[0], depth + 1))
+            raise AnalysisError(f"{mod.relpath}:{getattr(n, 'lineno', '?')}: regex pattern `{src(n)}` is not a constant the "
+                                f"analysis can fold")
+
+        def flags_of(call):
+            fl = 0
+            cand = [k.value for k in call.keywords if k.arg == "flags"]
+            fname = call.func.attr if isinstance(call.func, ast.Attribute) else fn_names.get(getattr(call.func, "id", ""), "")
+            pos = {"compile": 1, "match": 2, "fullmatch": 2, "search": 2, "findall": 2, "finditer": 2, "split": 3, "sub": 4,
+                   "subn": 4}.get(fname)
+            if pos is not None and len(call.args) > pos:
+                cand.append(call.args[pos])
+            for c in cand:
+                for nm in ast.walk(c):
+                    name = nm.attr if isinstance(nm, ast.Attribute) else (nm.id if isinstance(nm, ast.Name) else None)
+                    if name and hasattr(_re, name) and isinstance(getattr(_re, name), int):
+                        fl |= int(getattr(_re, name))
+            return fl
+        for n in ast.walk(mod.tree):
+            if not isinstance(n, ast.Call):
+                continue
+            is_re = (isinstance(n.func, ast.Attribute) and isinstance(n.func.value, ast.Name) and n.func.value.id in re_names
+                     and n.func.attr in ("compile", "match", "fullmatch", "search", "findall", "finditer", "split", "sub", "subn")) \
+                or (isinstance(n.func, ast.Name) and fn_names.get(n.func.id) in
+                    ("compile", "match", "fullmatch", "search", "findall", "finditer", "split", "sub", "subn"))
+            if is_re and n.args:
+                out.append((mod, n, fold(n.args[0]), flags_of(n)))
+    return out
+
+
 def run(ctx) -> Result:
     res = Result("C18")
     proj = ctx.proj
@@ -102,6 +183,32 @@ def run(ctx) -> Result:
     res.rule("P2", "scanner loop progress and subscript safety (any length)", 2)
     res.rule("P3", "text round trip of every ranking with ties over <= 3 elements, both notations, padding, name prefix", 3)
     res.rule("P4", "file round trip on a fake file system; reader filter accepts every writer line", 3)
+
+    # ------------------------------------------------------------------ P5 (before P1: a hanging pattern must not be run)
+    res.rule("P5", "regular expressions of the parsing / reading modules have no exponentially ambiguous loop", 1)
+    from ..engines import redos
+    st_bad = redos.self_test()
+    if st_bad:
+        raise AnalysisError(f"regex ambiguity analysis fails its built-in examples: {st_bad[0]}")
+    patterns = _regex_patterns(proj, ("corankco.utils", "corankco.ranking", "corankco.dataset", "corankco.element"))
+    hang = False
+    for mod, node, pat, flags in patterns:
+        try:
+            wit = redos.analyse(pat, flags)
+        except redos.RegexUnsupported as exc:
+            raise AnalysisError(f"{mod.relpath}:{node.lineno}: regular expression {pat!r} uses a construct the ambiguity "
+                                f"analysis does not model ({exc})")
+        hang = hang or wit is not None
+        res.check(wit is None, "P5", f"regex:{mod.relpath}:{pat[:40]}", f"{mod.relpath}:{node.lineno}",
+                  ok_detail=f"{pat!r}: no exponentially ambiguous loop",
+                  bad_detail=(f"pattern {pat!r}: after the prefix {wit['prefix']!r} the text {wit['pump']!r} can be read in two "
+                              f"ways around the same state; on a text repeating it and then failing to match, the "
+                              f"backtracking matcher needs time exponential in the number of repetitions (hang)") if wit else "")
+    res.ok("P5", "regex:analysis-self-test", "csa/engines/redos.py",
+           f"{len(redos.SELF_TEST)} built-in patterns classified as expected; {len(patterns)} pattern(s) found in the parsing modules")
+    res.extra["regex_patterns"] = [p_[2] for p_ in patterns]
+    if hang:
+        return res          # the bounded evaluation below would run the hanging matcher
 
     # ------------------------------------------------------------------ P1
     maxlen = 5 if ctx.thorough else 3
